@@ -9,6 +9,12 @@ fn main() {
         })
         .collect();
     names.sort();
+    // without the verification hooks (guard-off build: only the real-thread part of area mt is
+    // used) the areas that need hook re-exports of the crate are left out
+    let hooks_on = env::var("CARGO_ENCODED_RUSTFLAGS").map(|f| f.contains("hasenbanck_lzma_rust2_verif")).unwrap_or(false);
+    if !hooks_on {
+        names.retain(|n| !fs::read_to_string(format!("src/{}.rs", n)).unwrap().contains("// requires-verif-hooks"));
+    }
     let src = fs::canonicalize("src").unwrap();
     let mut s = String::new();
     for n in &names {
@@ -21,5 +27,6 @@ fn main() {
     s += "];\n";
     fs::write(Path::new(&env::var("OUT_DIR").unwrap()).join("areas_gen.rs"), s).unwrap();
     println!("cargo:rerun-if-changed=src");
+    println!("cargo:rerun-if-env-changed=CARGO_ENCODED_RUSTFLAGS");
     println!("cargo:rustc-check-cfg=cfg(hasenbanck_lzma_rust2_verif)");
 }
